@@ -3,6 +3,7 @@ package sim
 import (
 	"encoding/json"
 
+	"github.com/siglens/siglens/pkg/querytracker"
 	"github.com/siglens/siglens/pkg/segment/sortindex"
 	"github.com/siglens/siglens/pkg/segment/writer"
 )
@@ -25,6 +26,15 @@ func init() {
 	})
 	Register("waitsortindex", func(raw json.RawMessage) (interface{}, error) {
 		writer.VerifWaitSortIndexes()
+		return nil, nil
+	})
+}
+
+// clearpqs: forget every tracked persistent query (the production "clear" endpoint's body), so that which queries a new
+// segment evaluates while ingesting is decided by the job at hand, not by what the worker ran before.
+func init() {
+	Register("clearpqs", func(raw json.RawMessage) (interface{}, error) {
+		querytracker.ClearPqs()
 		return nil, nil
 	})
 }
